@@ -2,7 +2,7 @@
    PARTIAL.  Proved over all interleavings: the three protocol-level facts the concurrent design rests on, and the
    lock discipline (exclusion, no deadlock, bounded schedules).  The absence of data races and of panics in the Go
    code is explored by the race-detector harness (exploration, not proof); the structural invariant at quiescence is the sequential one of C01 and is checked on the quiescent dumps. *)
-From Verif Require Import Base.Prelude Proto.Conc Proto.ConcProofs Proto.Locks Proto.LocksProofs Proto.CasProofs Generated.Facts.
+From Verif Require Import Base.Prelude Proto.Conc Proto.ConcProofs Proto.Locks Proto.LocksProofs Proto.CasProofs Proto.FirstInsert Generated.Facts.
 
 Definition fb13 (f : fact bool) : bool := match f with Known b => b | Unrecognised _ => false end.
 Definition reader_skips_dead_entry_now : bool := fb13 search_skips_dead_entry && fb13 search_skips_deleted.
@@ -12,8 +12,11 @@ Lemma C13_facts_ok :
   membership_under_shard_lock = Known true /\ search_skips_dead_entry = Known true /\ search_skips_deleted = Known true /\
   insert_promotes_by_cas_loop = Known true /\ handover_repeats_while_tombstoned = Known true /\ handover_skips_deleted = Known true /\
   (* no critical section of package index acquires a second lock or leaves its region with the lock held *)
-  index_locks_not_nested = Known true.
+  index_locks_not_nested = Known true /\
+  (* the first vertex of an empty index is registered in the id map before it is offered as entry point *)
+  first_vertex_stored_before_published = Known true.
 Proof. repeat split; reflexivity. Qed.
+Definition store_first_now : bool := fb13 first_vertex_stored_before_published.
 
 (* (A) insert / remove outcomes are linearizable as operations on a set: every call takes effect in one critical
    section (the model's cs, run in the order of the critical sections), and that order respects real time *)
@@ -82,6 +85,18 @@ Example C13_promotion_runs :
   p_entry (prun lvl true s0 [0; 1; 1; 0; 0; 0]) = 1.
 Proof. split; [cbn; repeat (split; [eexists; split; reflexivity|]); exact I|]. split; [repeat constructor|reflexivity]. Qed.
 
+(* (C') the first inserts into an empty index: any number of writers, any ids (the same id included), every
+   interleaving of their two steps (register in the id map; offer as entry point by compare-and-swap from nil): the entry
+   point is always a vertex registered in the id map - at quiescence the index is one a sequential history leaves *)
+Theorem C13_first_insert_entry_registered : forall ws sched v,
+  f_entry (frun store_first_now (finit ws) sched) = Some v -> registered v (f_map (frun store_first_now (finit ws) sched)) = true.
+Proof. exact first_insert_entry_registered. Qed.
+Theorem C13_swap_first_refuted :
+  let s := frun false (finit [(10, 5); (11, 5)]) [0; 1; 1; 0] in
+  f_entry s = Some 10 /\ registered 10 (f_map s) = false /\ f_map s = [(5, 11)] /\
+  map ft_ok (f_thr s) = [false; true] /\ map ft_pc (f_thr s) = [FDone; FDone].
+Proof. exact swap_first_refuted. Qed.
+
 (* (D) the locks: shard locks around the id maps, one read/write lock per vertex and level.  With every critical section
    finite and acquiring no further lock (the fact above), for any number of goroutines, any sequence of critical
    sections and lock-free work in each, any set of locks, with or without sync.RWMutex's writer preference, and every
@@ -123,4 +138,5 @@ Print Assumptions C13_search_never_returns_removed.
 Print Assumptions C13_promotion_monotone.
 Print Assumptions C13_locks_safe_and_live.
 Print Assumptions C13_membership_linearizable.
+Print Assumptions C13_first_insert_entry_registered.
 Print Assumptions C13_promotion_terminates.
